@@ -1316,6 +1316,8 @@ class Run:
             pt = z(pre)
             if len(args) == 1:
                 return wrap(z3.PrefixOf(pt, st), "bool")
+            if len(args) > 2 or kwargs:
+                raise OutOfDialect("str.startswith with an end argument", n)
             p = z(args[1], "int")
             ln = z3.Length(st)
             # CPython: negative start is relative to the end; start > len -> False (even for "")
@@ -1325,10 +1327,26 @@ class Run:
             sub = z(args[0])
             if len(args) == 1:
                 return wrap(z3.IndexOf(st, sub, 0), "int")
+            if len(args) > 3 or kwargs:
+                raise OutOfDialect("str.find arguments", n)
             p = z(args[1], "int")
             ln = z3.Length(st)
             pp = z3.If(p < 0, z3.If(p + ln < 0, 0, p + ln), p)
-            return wrap(z3.If(pp > ln, -1, z3.IndexOf(st, sub, pp)), "int")
+            unbounded = z3.If(pp > ln, -1, z3.IndexOf(st, sub, pp))
+            if len(args) == 2 or args[2] is None:
+                return wrap(unbounded, "int")
+            # find(sub, start, end): the occurrence must lie entirely inside s[start:end]
+            endv = args[2]
+
+            def bounded(e):
+                ee = z3.If(e < 0, z3.If(e + ln < 0, 0, e + ln), z3.If(e > ln, ln, e))
+                return z3.If(pp > ee, -1, z3.IndexOf(z3.SubString(st, 0, ee), sub, pp))
+
+            if isinstance(endv, Sym) and endv.k == "optint":
+                return wrap(z3.If(OptInt.is_none_i(endv.t), unbounded, bounded(OptInt.ival(endv.t))), "int")
+            if self._kind(endv) == "int":
+                return wrap(bounded(z(endv, "int")), "int")
+            raise OutOfDialect("str.find end argument", n)
         if name == "endswith" and len(args) == 1:
             return wrap(z3.SuffixOf(z(args[0]), st), "bool")
         if isinstance(s, str) and all(_is_py(a) for a in args):
